@@ -84,7 +84,7 @@ func boundCheck(posOrigin string) acceptFn {
 func c01SegmentBounds(c *Ctx) {
 	// constructions of IndexSegment: stores to IndexSegment.first
 	n := 0
-	for _, fn := range c.Funcs {
+	for _, fn := range c.subjects() {
 		var site ssa.Instruction
 		instrs(fn, func(_ *ssa.BasicBlock, _ int, ins ssa.Instruction) {
 			if st, ok := ins.(*ssa.Store); ok {
@@ -105,7 +105,7 @@ func c01SegmentBounds(c *Ctx) {
 		}
 		// otherwise every in-package call site must be guarded in its caller
 		callers, unguarded := 0, []string{}
-		for _, caller := range c.Funcs {
+		for _, caller := range c.subjects() {
 			for _, call := range calls(caller, func(name string) bool { return true }) {
 				if c.staticFn(call) != fn {
 					continue
@@ -950,7 +950,7 @@ func c01MarksInvalid(c *Ctx) {
 
 func c01DerivedState(c *Ctx) {
 	n := 0
-	for _, fn := range c.Funcs {
+	for _, fn := range c.subjects() {
 		var idxStore, posStore *ssa.Store
 		instrs(fn, func(_ *ssa.BasicBlock, _ int, ins ssa.Instruction) {
 			if st, ok := ins.(*ssa.Store); ok {
